@@ -1,6 +1,7 @@
 import SeqVerif.Model.C03Codec
 import SeqVerif.Model.C03Lids
 import SeqVerif.Model.C03Ids
+import SeqVerif.Model.C03TokenTable
 import SeqVerif.Base.Search
 import SeqVerif.Model.C03Tokens
 import SeqVerif.Extracted.C03T
@@ -264,6 +265,79 @@ theorem c03_t_LessOrEqual (t : IDsTable) (blocks : List IDBlockDisk) (lid : Nat)
         · have h2' : ¬ ((lid / 4096 : Nat) : Int) > 0 := by omega
           simp only [if_neg h2', h2, decide_false, Bool.false_and, Bool.false_eq_true, if_false]
           exact tail
+
+/-! ## packer: length-prefixed fields -/
+
+private theorem leBytesN4 (n : Nat) : leBytesN 4 n = le32 n := by
+  simp [leBytesN, le32, Nat.div_div_eq_div_mul]
+
+private theorem leReadN4 (bs : List Nat) (h : 4 ≤ bs.length) : leReadN 4 bs = unle32 bs := by
+  match bs, h with
+  | a :: b :: c :: d :: rest, _ => simp [leReadN, unle32]; omega
+
+/-- `BytesPacker.PutUint32`: the scratch buffer (at least 4 bytes; `NewBytesPacker` makes 10) keeps its length and
+`Data` grows by `le32 n` -/
+theorem c03_t_PutUint32 (buf data : List Nat) (n : Nat) (hb : 4 ≤ buf.length) :
+    ∃ buf', buf'.length = buf.length ∧
+      T.BytesPacker_PutUint32 (ints buf) (ints data) n = some (ints buf', ints (data ++ le32 n)) := by
+  refine ⟨buf.take 0 ++ leBytesN 4 n ++ buf.drop (0 + 4), by simp [leBytesN]; omega, ?_⟩
+  unfold T.BytesPacker_PutUint32
+  have g1 : ¬ ¬ ((0 : Int) ≤ 0 ∧ (0 : Int) + 4 ≤ len (ints buf) ∧ len (ints buf) ≤ len (ints buf)) := by rw [len_ints]; omega
+  have hp := lePut_ints 4 buf 0 n
+  simp only [Int.natCast_zero] at hp
+  rw [if_neg g1, hp]
+  have hl : len (ints (buf.take 0 ++ leBytesN 4 n ++ buf.drop (0 + 4))) = (buf.length : Int) := by
+    rw [len_ints]; simp [leBytesN]; omega
+  have g2 : ¬ ¬ ((0 : Int) ≤ 0 ∧ (0 : Int) ≤ 4 ∧ (4 : Int) ≤ len (ints (buf.take 0 ++ leBytesN 4 n ++ buf.drop (0 + 4)))) := by
+    rw [hl]; omega
+  have hs : slice (ints (buf.take 0 ++ leBytesN 4 n ++ buf.drop (0 + 4))) 0 4 = ints (le32 n) := by
+    have := slice_ints (buf.take 0 ++ leBytesN 4 n ++ buf.drop (0 + 4)) 0 4
+    have e : slice (ints (buf.take 0 ++ leBytesN 4 n ++ buf.drop (0 + 4))) 0 4
+        = ints (((buf.take 0 ++ leBytesN 4 n ++ buf.drop (0 + 4)).take 4).drop 0) := this
+    rw [e, ← leBytesN4]; simp [leBytesN]
+  simp only []
+  split
+  · rename_i hc; rw [hl] at hc; omega
+  · rw [hs]; simp only [ints_append]
+
+/-- `BytesPacker.PutStringWithSize` = the model's `putStr` (strings shorter than 2^32) -/
+theorem c03_t_PutStringWithSize (buf data s : List Nat) (hb : 4 ≤ buf.length) (hs : s.length < 4294967296) :
+    ∃ buf', buf'.length = buf.length ∧
+      T.BytesPacker_PutStringWithSize (ints buf) (ints data) (ints s) = some (ints buf', ints (data ++ putStr s)) := by
+  obtain ⟨buf', hl, he⟩ := c03_t_PutUint32 buf data s.length hb
+  refine ⟨buf', hl, ?_⟩
+  unfold T.BytesPacker_PutStringWithSize
+  have hw : wrapU32 (len (ints s)) = (s.length : Int) := by rw [len_ints]; unfold wrapU32; omega
+  rw [hw, he]
+  simp only [Option.bind_some, putStr, ints_append, List.append_assoc]
+
+/-- `BytesUnpacker.GetUint32` = `getU32` (a buffer shorter than 4 bytes panics) -/
+theorem c03_t_GetUint32 (bs : List Nat) (h : 4 ≤ bs.length) :
+    T.BytesUnpacker_GetUint32 (ints bs) = some (((getU32 bs).1 : Int), ints (getU32 bs).2) := by
+  unfold T.BytesUnpacker_GetUint32 getU32
+  have g1 : ¬ ¬ ((4 : Int) ≤ len (ints bs)) := by rw [len_ints]; omega
+  have g2 : ¬ ¬ ((0 : Int) ≤ 4 ∧ (4 : Int) ≤ len (ints bs) ∧ len (ints bs) ≤ len (ints bs)) := by rw [len_ints]; omega
+  have hs : slice (ints bs) 4 (len (ints bs)) = ints (bs.drop 4) := by
+    rw [len_ints]; have := slice_ints bs 4 bs.length; simpa using this
+  simp only [if_neg g1, if_neg g2, hs, leRead_ints, leReadN4 bs h]
+
+/-- `BytesUnpacker.GetBinary` = `getBinary` when the announced length fits the rest of the buffer (else it panics) -/
+theorem c03_t_GetBinary (bs : List Nat) (h : 4 ≤ bs.length) (hl : unle32 bs ≤ bs.length - 4) :
+    T.BytesUnpacker_GetBinary (ints bs) = some (ints (getBinary bs).1, ints (getBinary bs).2) := by
+  unfold T.BytesUnpacker_GetBinary getBinary
+  rw [c03_t_GetUint32 bs h]
+  simp only [Option.bind_some, getU32]
+  have hlen : len (ints (bs.drop 4)) = ((bs.length - 4 : Nat) : Int) := by rw [len_ints]; simp
+  have g1 : ¬ ¬ ((0 : Int) ≤ 0 ∧ (0 : Int) ≤ (unle32 bs : Int) ∧ (unle32 bs : Int) ≤ len (ints (bs.drop 4))) := by rw [hlen]; omega
+  have g2 : ¬ ¬ ((0 : Int) ≤ (unle32 bs : Int) ∧ (unle32 bs : Int) ≤ len (ints (bs.drop 4)) ∧ len (ints (bs.drop 4)) ≤ len (ints (bs.drop 4))) := by
+    rw [hlen]; omega
+  have s1 : slice (ints (bs.drop 4)) 0 (unle32 bs : Int) = ints ((bs.drop 4).take (unle32 bs)) := by
+    have := slice_ints (bs.drop 4) 0 (unle32 bs); simpa using this
+  have s2 : slice (ints (bs.drop 4)) (unle32 bs : Int) (len (ints (bs.drop 4))) = ints ((bs.drop 4).drop (unle32 bs)) := by
+    rw [hlen]; have := slice_ints (bs.drop 4) (unle32 bs) (bs.length - 4)
+    rw [this]; congr 1
+    rw [List.take_of_length_le (by simp)]
+  simp only [if_neg g1, if_neg g2, s1, s2]
 
 /-- `bsNew` / the token block size rule `max(1, len(tids)/(fieldSize/RegularBlockSize+1))`, for every token list
 and every field size an `int` can hold -/
